@@ -318,6 +318,15 @@ def validateMint (m : MintGenesis) : Option String :=
 def validateGenesis (g : VpnGenesis) (w : SwapGenesis) (m : MintGenesis) : Option String :=
   firstOf [pfx "vpn:" (validateVpn g), pfx "swap:" (validateSwap w), pfx "custommint:" (validateMint m)]
 
+/-- C12's monitor: the genesis exported from this state passes validation.  It is the Bool form of the
+`export validates` conjunct of `roundtrip_reachable` (Props/C12Reach; `Hub.Props.C12Export.exportValid_of_reachable` proves it for every reachable state, with no condition on the swaps) for the vpn and custommint sections
+and the swap parameters; the swap *records* are left out because of the listed finding F4 (a recorded
+swap of less than 100 fails `Swap.Validate`), which the round-trip check reports by itself. -/
+def exportValidB (s : State) : Bool :=
+  !exportPanics s && (validateVpn (exportVpn s)).isNone && (validateMint (exportMint s)).isNone
+    && (s.params.swap.validate).isNone && !hasDup ((exportSwap s).swaps.map (·.hash))
+
+
 /-! ## Import -/
 
 /-- The SDK side a re-import keeps (bank balances and supply, block time and height, SDK mint
